@@ -274,13 +274,73 @@ def _make_class(cid):
     if cid == 3:
         # class 3 is printed through a *predicate* printer (no class registration at all)
         pp.register_pretty(predicate=lambda v, _cls=cls: type(v) is _cls)(printer)
+    elif cid == 5:
+        # class 5 is registered *by name*: the entry is pending until the first print promotes it; it is re-armed before every case
+        # (rearm_by_name), so that the failing invocation may be the very print that promotes the printer
+        BY_NAME[cid] = (cls.__module__ + '.' + cls.__qualname__, printer)
+        pp.register_pretty(BY_NAME[cid][0])(printer)
     else:
         pp.register_pretty(cls)(printer)
     return cls
 
 
-for _c in range(1, 5):
+BY_NAME = {}
+
+
+def rearm_by_name():
+    for key, printer in BY_NAME.values():
+        pp.register_pretty(key)(printer)
+
+
+for _c in range(1, 6):
     CLASSES[_c] = _make_class(_c)
+
+
+class Reentrant(Obj):
+    """the documented idiom `__repr__ = pretty_repr`: the repr fallback of a failing printer re-enters the pretty printer"""
+    __repr__ = pp.pretty_repr
+
+
+_reentrant = {'fail_next': False}
+
+
+@pp.register_pretty(Reentrant)
+def _printer_reentrant(value, ctx):
+    if _reentrant['fail_next']:
+        _reentrant['fail_next'] = False
+        raise KeyError('injected, once')
+    return pp.pretty_call_alt(ctx, 'Reentrant', args=(value.uid,))
+
+
+def reentrant_repr_check():
+    """a printer fails once on a value whose __repr__ is pretty_repr: the fallback repr prints the value through the (now healthy)
+    printer, so the text is the fault-free text, with one warning naming the printer; later calls are unaffected"""
+    bad = []
+    for shape in ('top', 'list', 'dict', 'twice'):
+        r1, r2 = Reentrant(9, [], 1), Reentrant(9, [], 2)
+        v = {'top': r1, 'list': [r1, 0], 'dict': {'k': [r1]}, 'twice': [r1, r2, r1]}[shape]
+        with warnings.catch_warnings(record=True) as w0:
+            warnings.simplefilter('always')
+            want = pp.pformat(v, width=200)
+        _reentrant['fail_next'] = True
+        with warnings.catch_warnings(record=True) as w:
+            warnings.simplefilter('always')
+            try:
+                got = pp.pformat(v, width=200)
+            except Exception as e:
+                got = 'EXC:' + type(e).__name__
+        _reentrant['fail_next'] = False
+        named = [str(x.message).split('raised an exception')[0] for x in w if 'raised an exception' in str(x.message)]
+        try:
+            later = pp.pformat(v, width=200)
+        except Exception as e:
+            later = 'EXC:' + type(e).__name__
+        if got != want or later != want or w0:
+            bad.append({'kind': 'failure-not-contained', 'why': 'printer of a value whose __repr__ is pretty_repr fails once: text %r, expected the fault-free text %r (later call: %r)' % (got, want, later),
+                        'shape': shape})
+        elif len(named) != 1 or '_printer_reentrant' not in named[0]:
+            bad.append({'kind': 'failure-not-contained', 'why': 'warnings name %r, expected exactly one naming _printer_reentrant' % named, 'shape': shape})
+    return bad
 
 
 def _catch_all(value, ctx):
@@ -349,6 +409,7 @@ def fail_chunk(cases):
     mism, fails = [], []
     n = nt = 0
     for (spec, plan, wrap) in cases:
+        rearm_by_name()
         root, nodes = build_tree(spec, wrap)
         _state['counter'] = 0
         _state['plan'] = dict(plan)
@@ -373,7 +434,10 @@ def fail_chunk(cases):
         with warnings.catch_warnings(record=True) as w2:
             warnings.simplefilter('always')
             clean_root, _ = build_tree(spec, wrap)
-            later = pp.pformat(clean_root, width=200)
+            try:
+                later = pp.pformat(clean_root, width=200)
+            except Exception as e:
+                later = 'EXC:' + type(e).__name__ + ': ' + str(e)[:100]
         if exc is not None:
             impl = '(escapes (warn%s))' % ''.join(' %d' % c for c in warned) if exc == 'ValueError' else '(raises %s)' % exc
         else:
@@ -467,7 +531,7 @@ def failures_section(tier, seed):
     maxn = 4 if tier == 'quick' else 5
     trees = []
     for n in range(1, maxn + 1):
-        trees.extend(all_trees(n, (1, 2, 3) if n <= 3 else (1, 2)))
+        trees.extend(all_trees(n, (1, 2, 3, 5) if n <= 3 else (1, 2)))
     for t in trees:
         sz = size(t)
         cases.append((t, {}, set()))
@@ -492,9 +556,11 @@ def failures_section(tier, seed):
             nt += b
             mism.extend(mm)
             fails.extend(ff)
+    fails.extend(reentrant_repr_check())
     stats = {'evaluations': tot, 'distinct_nontrivial': nt, 'trees': len(trees), 'mismatches': len(mism), 'exhaustive': True,
+             'reentrant_repr_checked': True,
              'samples': [{'tree': cases[7][0], 'fault': sorted(cases[7][1].items())}],
-             'rule': 'every tree of <= %d instrumented objects (two printer kinds: with / without a trailing_comment parameter) x every invocation index x exception classes '
+             'rule': 'every tree of <= %d instrumented objects (printers with / without a trailing_comment parameter, registered by class, by predicate and by name - the by-name entry pending again before every case) x every invocation index x exception classes '
                      '(incl. TypeError) x {plain, the faulty value under trailing_comment} + a bad return value at every index + sampled fault pairs; observed: which values fell back to repr, '
-                     'which printers the warnings name, ValueError escaping; each followed by a fault-free call; non-trivial = cases with a fault' % maxn}
+                     'which printers the warnings name, ValueError escaping; each followed by a fault-free call; plus a printer failing once on values whose __repr__ is pretty_repr (the fallback re-enters the printer); non-trivial = cases with a fault' % maxn}
     return stats, mism, fails
